@@ -384,6 +384,35 @@ class Interp:
             if not t.cancelled() and t.exception() is not None:
                 raise t.exception()
         self.ctx.nontrivial = True
+        await self.final_flush_check()
+
+    async def final_flush_check(self):
+        """Concurrent mode epilogue: at quiescence every selected session is
+        flushed (NOOP) and its replayed view must equal the server's list."""
+        await asyncio.sleep(0.5)
+        for sid, sess in list(self.sessions.items()):
+            ms = self.model.sessions.get(sid)
+            if sid == "obs" or sess.lost or ms is None or ms.dead or sess.view is None or sess.selected is None:
+                continue
+            if getattr(ms, "idling", False):
+                r = await sess.idle_done()
+                ms.idling = False
+                if r is None or r.status is None:
+                    continue
+            r = await self.run_cmd(sess, ms, "NOOP")
+            if not r.ok or sess.view is None:
+                continue
+            n_before = len(sess.view)
+            f = await self.run_cmd(sess, ms, "UID FETCH 1:* (UID)")
+            if not f.ok or sess.view is None:
+                continue
+            self.C("c01_flush_equal")
+            got = [u for u in f.untagged if u.kind == "FETCH"]
+            # (new arrivals between the NOOP and the FETCH extend the view via EXISTS first)
+            if len(got) != len(sess.view):
+                self.V(
+                    "C01", "view_differs_after_flush", session=sid, verb="NOOP", view=len(sess.view), server=len(got), mailbox=sess.selected,
+                )
 
     def waitfor_picture(self):
         out = {}
@@ -792,6 +821,11 @@ class Interp:
             return ",".join(map(str, nums)) or "1", [view[n - 1] for n in nums], bool(nums)
         raise ValueError(st)
 
+    def view_synced_list(self, view, box):
+        if box is None or len(view) != len(box.msgs):
+            return False
+        return all(c is None or m.uid is None or c == m.uid for c, m in zip(view, box.msgs))
+
     def view_synced(self, sess, box):
         """Does the session's replayed view equal the model's message list?"""
         if sess.view is None or box is None:
@@ -982,8 +1016,9 @@ class Interp:
         r = await self.run_cmd(sess, ms, f"{'UID ' if op.get('uid') else ''}STORE {txt} {item} ({' '.join(flags)})")
         if r.status is None or ms.dead:
             return
-        if "*" in txt and len(sess.view or []) != vlen:
-            uids = None  # `*` was evaluated after the mailbox grew during the command
+        if ("*" in txt or valid is False) and len(sess.view or []) != vlen:
+            uids = None  # the set was evaluated after the mailbox grew during the command
+            valid = None
         has_recent = "\\recent" in [canon_flag(f) for f in flags]
         if not self.compare or box.uncertain or uids is None:
             box.uncertain = box.uncertain or (r.ok and uids is None)
@@ -1064,8 +1099,9 @@ class Interp:
         r = await self.run_cmd(sess, ms, f"{'UID ' if op.get('uid') else ''}FETCH {txt} {items}")
         if r.status is None or ms.dead:
             return
-        if "*" in txt and len(sess.view or []) != vlen:
+        if ("*" in txt or valid is False) and len(sess.view or []) != vlen:
             uids = [None]
+            valid = None
         peek = "PEEK" in items.upper() or not re.search(r"BODY\[|RFC822(?!\.SIZE|\.HEADER)", items.upper())
         if not self.compare or box.uncertain:
             if r.ok and not peek:
@@ -1232,11 +1268,29 @@ class Interp:
             return
         txt, uids, valid = self.resolve_set(sess, ms, op)
         vlen = len(sess.view or [])
+        view_before = list(sess.view or [])
         r = await self.run_cmd(sess, ms, f"{'UID ' if op.get('uid') else ''}{verb} {txt} {quote(dstname)}")
         if r.status is None or ms.dead:
             return
-        if "*" in txt and len(sess.view or []) != vlen:
+        if not op.get("uid") and "pos" in (op.get("set") or {}) and not self.view_synced_list(view_before, box):
+            # The session had EXPUNGEs pending.  COPY/MOVE may legally flush
+            # them first; the numbers are then booked against the view after
+            # the EXPUNGEs that preceded the command's first effect.
+            v = list(view_before)
+            for u in r.untagged:
+                if u.kind == "OK" and u.code and str(u.code[0]).upper() == "COPYUID":
+                    break
+                if u.kind == "EXPUNGE" and u.num and 1 <= u.num <= len(v):
+                    del v[u.num - 1]
+            nums = op["set"]["pos"]
+            if all(1 <= p <= len(v) for p in nums) and nums:
+                uids, valid = [v[p - 1] for p in nums], True
+            else:
+                uids, valid = [], False
+            self.C("c01_flush_then_copy")
+        if ("*" in txt or valid is False) and len(sess.view or []) != vlen:
             uids = None
+            valid = None
         boxes = [box] + ([dst] if dst is not None else [])
         if not self.compare or box.uncertain or uids is None or (dst is not None and dst.uncertain):
             if r.ok:
@@ -1653,3 +1707,312 @@ class Interp:
                     if a["status"].get(k) != b["status"].get(k):
                         self.V("C12", "restart_changed_status", mailbox=n, item=k, before=b["status"].get(k), after=a["status"].get(k))
                         break
+
+
+# ---------------------------------------------------------------------------
+# namespace (C17) -- mixed into Interp below
+#
+def imap_match(pattern, name):
+    """IMAP LIST wildcard match: `*` any, `%` any but '/'.  Written
+    independently of asimap (recursive, no regex)."""
+
+    def m(pi, ni):
+        while pi < len(pattern):
+            c = pattern[pi]
+            if c == "*":
+                for k in range(ni, len(name) + 1):
+                    if m(pi + 1, k):
+                        return True
+                return False
+            if c == "%":
+                k = ni
+                while True:
+                    if m(pi + 1, k):
+                        return True
+                    if k >= len(name) or name[k] == "/":
+                        return False
+                    k += 1
+            if ni >= len(name) or name[ni] != c:
+                return False
+            pi += 1
+            ni += 1
+        return ni == len(name)
+
+    return m(0, 0)
+
+
+class NamespaceOps:
+    def ns_expected_list(self, ref, pat, lsub=False):
+        full = ref + pat
+        out = {}
+        for name, box in self.model.boxes.items():
+            shown = "INBOX" if name == "inbox" else name
+            if lsub and not box.subscribed:
+                continue
+            ok = imap_match(full, shown)
+            if not ok and name == "inbox" and full.upper() == "INBOX":
+                ok = True
+            if ok:
+                attrs = set()
+                if box.noselect:
+                    attrs.add("\\noselect")
+                attrs.add("\\haschildren" if self.model.children(name) else "\\hasnochildren")
+                out[shown] = attrs
+        return out
+
+    async def op_list(self, op):
+        sess, ms = self.sess(op)
+        if sess is None or ms.dead:
+            return
+        ref, pat = op.get("ref", ""), op.get("pat", "*")
+        verb = "LSUB" if op.get("lsub") else "LIST"
+        ext = op.get("ext")
+        if ext:
+            line = f"LIST {ext}"
+        else:
+            line = f"{verb} {quote(ref)} {quote(pat)}"
+        r = await self.run_cmd(sess, ms, line)
+        if r.status is None or not self.compare or ext or not r.ok:
+            return
+        if pat == "" :
+            return
+        got = {}
+        dup = []
+        for name, attrs in self.parse_list(r, verb):
+            if name in got:
+                dup.append(name)
+            got[name] = set(attrs)
+        exp = self.ns_expected_list(ref, pat, lsub=bool(op.get("lsub")))
+        self.C("c17_list")
+        if dup:
+            self.V("C17", "list_duplicate", names=dup, cmd=line)
+        gi = {("INBOX" if n.upper() == "INBOX" else n): a for n, a in got.items()}
+        missing = sorted(set(exp) - set(gi))
+        extra = sorted(set(gi) - set(exp))
+        if missing:
+            self.V("C17", "list_missing", cmd=line, missing=missing, got=sorted(gi))
+        if extra:
+            self.V("C17", "list_extra", cmd=line, extra=extra, expected=sorted(exp))
+        if not op.get("lsub"):
+            for n in set(exp) & set(gi):
+                want = exp[n]
+                have = {a for a in gi[n] if a in ("\\noselect", "\\haschildren", "\\hasnochildren")}
+                if want != have:
+                    self.V("C17", "list_attr_wrong", cmd=line, name=n, expected=sorted(want), got=sorted(have))
+                    break
+
+    async def op_lsub(self, op):
+        await self.op_list(dict(op, lsub=True))
+
+    def dir_snapshot(self):
+        out = []
+        for root, dirs, files in os.walk(self.maildir):
+            dirs.sort()
+            rel = os.path.relpath(root, self.maildir)
+            out.append((rel, tuple(sorted(f for f in files if f.isdigit()))))
+        return sorted(out)
+
+    async def ns_refused_unchanged(self, before_dirs, line):
+        self.C("c17_refused_unchanged")
+        after = self.dir_snapshot()
+        if after != before_dirs:
+            self.V("C17", "refused_namespace_command_had_effect", cmd=line, before=[d for d in before_dirs if d not in after][:6], after=[d for d in after if d not in before_dirs][:6])
+
+    async def op_create(self, op):
+        sess, ms = self.sess(op)
+        if sess is None or ms.dead:
+            return
+        name = op["name"]
+        before = self.dir_snapshot() if self.compare else None
+        line = f"CREATE {quote(name)}"
+        r = await self.run_cmd(sess, ms, line)
+        if r.status is None or not self.compare:
+            return
+        key = "inbox" if name.lower() == "inbox" else name
+        ex = self.model.boxes.get(key)
+        if name.lower() == "inbox" or (ex is not None and not ex.noselect):
+            self.C("c17_create_existing")
+            if r.ok:
+                self.V("C17", "create_existing_ok", name=name)
+            else:
+                await self.ns_refused_unchanged(before, line)
+            return
+        if not r.ok:
+            await self.ns_refused_unchanged(before, line)
+            return
+        self.ctx.nontrivial = True
+        name = name.strip("/")
+        if ex is not None and ex.noselect:
+            ex.noselect = False
+            ex.msgs = []
+            ex.uvv = ex.uvv  # keeps the value assigned when it was deleted
+        parts = name.split("/")
+        for j in range(1, len(parts) + 1):
+            pn = "/".join(parts[:j])
+            if pn and pn not in self.model.boxes:
+                self.model.boxes[pn] = MBox(pn)
+        await self.after_mutation([self.model.boxes[name]] if name in self.model.boxes else [], "create")
+
+    async def op_delete(self, op):
+        sess, ms = self.sess(op)
+        if sess is None or ms.dead:
+            return
+        name = op["name"]
+        key = "inbox" if name.lower() == "inbox" else name
+        before = self.dir_snapshot() if self.compare else None
+        line = f"DELETE {quote(name)}"
+        r = await self.run_cmd(sess, ms, line)
+        if r.status is None or not self.compare:
+            return
+        box = self.model.boxes.get(key)
+        if key == "inbox":
+            self.C("c17_inbox_delete")
+            if r.ok:
+                self.V("C17", "inbox_deleted", reply=r.brief())
+            else:
+                await self.ns_refused_unchanged(before, line)
+            return
+        if box is None:
+            self.C("c17_delete_missing")
+            if r.ok:
+                self.V("C17", "delete_missing_ok", name=name)
+            else:
+                await self.ns_refused_unchanged(before, line)
+            return
+        if not r.ok:
+            await self.ns_refused_unchanged(before, line)
+            return
+        self.ctx.nontrivial = True
+        kids = self.model.children(key)
+        # sessions that had it selected lose it
+        for sid, m2 in self.model.sessions.items():
+            if m2.selected is box:
+                m2.selected = None
+                m2.lost_mailbox = True
+        if kids:
+            box.noselect = True
+            box.msgs = []
+            box.uvv_history.append(box.uvv)
+            box.uvv = None
+            box.ledger = {}
+            box.max_uid = 0
+            box.uidnext_told = 0
+        else:
+            del self.model.boxes[key]
+            self.C("c17_deleted_leaf")
+            # a deleted leaf must be neither listed nor selectable
+            rr = await self.obs.command(f'LIST "" {quote(name)}')
+            if any(n == name for n, _ in self.parse_list(rr)):
+                self.V("C17", "deleted_leaf_still_listed", name=name, subscribed=box.subscribed, reply=rr.brief())
+                # keep the model usable: asimap keeps it as a placeholder
+                box.noselect = True
+                box.msgs = []
+                box.uvv = None
+                box.ledger = {}
+                box.max_uid = 0
+                box.uidnext_told = 0
+                self.model.boxes[key] = box
+
+    async def op_rename(self, op):
+        sess, ms = self.sess(op)
+        if sess is None or ms.dead:
+            return
+        old, new = op["name"], op["to"]
+        okey = "inbox" if old.lower() == "inbox" else old
+        nkey = "inbox" if new.lower() == "inbox" else new
+        before = self.dir_snapshot() if self.compare else None
+        line = f"RENAME {quote(old)} {quote(new)}"
+        r = await self.run_cmd(sess, ms, line)
+        if r.status is None or not self.compare:
+            return
+        src = self.model.boxes.get(okey)
+        if src is None or nkey in self.model.boxes or nkey.startswith(okey + "/") or src.noselect:
+            self.C("c17_rename_invalid")
+            if r.ok and (src is None or nkey in self.model.boxes):
+                self.V("C17", "rename_invalid_ok", old=old, new=new)
+                for b in self.model.boxes.values():
+                    b.uncertain = True
+            elif not r.ok:
+                await self.ns_refused_unchanged(before, line)
+            return
+        if not r.ok:
+            await self.ns_refused_unchanged(before, line)
+            return
+        self.ctx.nontrivial = True
+        moved = []
+        if okey == "inbox":
+            nb = MBox(nkey)
+            nb.msgs = [MMsg(None, m.tok, m.flags, m.date) for m in src.msgs]
+            src.msgs = []
+            self.model.boxes[nkey] = nb
+            parts = nkey.split("/")
+            for j in range(1, len(parts)):
+                pn = "/".join(parts[:j])
+                if pn not in self.model.boxes:
+                    self.model.boxes[pn] = MBox(pn)
+            self.others_changed(src, None)
+            moved = [src, nb]
+        else:
+            for n in [okey] + self.model.children(okey):
+                b = self.model.boxes.pop(n)
+                nn = nkey + n[len(okey):]
+                b.name = nn
+                self.model.boxes[nn] = b
+                if nn in self.model.name_uvv_max and b.uvv is not None:
+                    pass
+                moved.append(b)
+            parts = nkey.split("/")
+            for j in range(1, len(parts)):
+                pn = "/".join(parts[:j])
+                if pn not in self.model.boxes:
+                    self.model.boxes[pn] = MBox(pn)
+            # nothing may remain listed / selectable under the old name
+            self.C("c17_rename_left_behind")
+            rr = await self.obs.command(f'LIST "" {quote(old + "*")}')
+            left = [n for n, _ in self.parse_list(rr) if n == old or n.startswith(old + "/")]
+            left = [n for n in left if n not in self.model.boxes]
+            if left:
+                self.V("C17", "rename_left_behind", old=old, new=new, still_listed=left)
+        await self.after_mutation(moved, "rename")
+
+    async def op_subscribe(self, op):
+        sess, ms = self.sess(op)
+        if sess is None or ms.dead:
+            return
+        name = op["name"]
+        key = "inbox" if name.lower() == "inbox" else name
+        verb = "UNSUBSCRIBE" if op.get("un") else "SUBSCRIBE"
+        r = await self.run_cmd(sess, ms, f"{verb} {quote(name)}")
+        if r.status is None or not self.compare:
+            return
+        box = self.model.boxes.get(key)
+        if box is not None and r.ok:
+            box.subscribed = not op.get("un")
+            self.ctx.nontrivial = True
+        elif box is None and r.ok and not op.get("un"):
+            self.C("c17_subscribe_missing")
+
+    async def op_unsubscribe(self, op):
+        await self.op_subscribe(dict(op, un=True))
+
+    async def op_status(self, op):
+        sess, ms = self.sess(op)
+        if sess is None or ms.dead:
+            return
+        name = op["mbox"]
+        r = await self.run_cmd(sess, ms, f"STATUS {quote(name)} (MESSAGES UIDNEXT UIDVALIDITY UNSEEN RECENT)")
+        if r.status is None or not r.ok:
+            return
+        box = self.model.box(name)
+        if box is None:
+            return
+        for u in r.untagged:
+            if u.kind == "STATUS" and u.tokens and isinstance(u.tokens[-1], list):
+                t = u.tokens[-1]
+                st = {str(t[i]).upper(): int(t[i + 1]) for i in range(0, len(t) - 1, 2)}
+                self.check_uid_codes(box, st.get("UIDVALIDITY"), st.get("UIDNEXT"), "STATUS")
+
+
+for _n, _f in list(NamespaceOps.__dict__.items()):
+    if callable(_f) and not _n.startswith("__"):
+        setattr(Interp, _n, _f)
